@@ -156,11 +156,11 @@ fn c17_k_twelve_star() {
 #[kani::stub(EarthBranch::from_index, faithful_branch_from_index)]
 fn c08_k_month_next() {
   let y: isize = kani::any(); let mp: isize = kani::any(); let n: isize = kani::any();
-  kani::assume(y >= 0 && y <= 9999 && mp >= 0 && mp < 60 && n >= -300 && n <= 300);   // |n| <= 300: 64-bit div/mod circuits time out for wider n
+  kani::assume(y >= -1 && y <= 9999 && mp >= 0 && mp < 60 && n >= -300 && n <= 300);   // |n| <= 300: 64-bit div/mod circuits time out for wider n (every n: verus/c11_month_next.rs)
   let m = SixtyCycleMonth { year: SixtyCycleYear { year: y }, month: cheap_cycle(mp) };
   let idx = spec::emod(mp as i64 % 12 - 2, 12);                       // position in the year: Yin month = 0
   let t = (y as i64) * 12 + idx + n as i64;
-  kani::assume(t >= 0 && t <= 9999 * 12 + 11);
+  kani::assume(t >= -12 && t <= 9999 * 12 + 11);   // the target year stays in -1..=9999
   let r = m.next(n);
   assert!(m.get_index_in_year() as i64 == idx, "index in year counts from the Yin month");
   assert!((r.get_sixty_cycle_year().get_year() as i64) * 12 + r.get_index_in_year() as i64 == t, "12*year + index moves by exactly n");
